@@ -1,10 +1,12 @@
 (* C08 -- nested histories partition the tree and reference each other correctly.  Statements only.
    PARTIAL: proved are the routing (deepest containing history, unique as a location, relative path), the copy of a
    nested root's hashes into its parent history, and the effect of one history's commit (references handed to the
-   parent with the relative path and the new generation number, manifest before chain).  The order in which `load`
-   lists histories (children before parents) and the fold of `commit` over them are carried by the lockstep
-   correspondence. *)
-From MHL Require Import Model.Create Proofs.BaseFacts Proofs.RouteFacts Proofs.CommitFacts.
+   parent with the relative path and the new generation number, manifest before chain), the order in which `load`
+   lists histories (every nested history before the history that contains it, root last) and that a run's write
+   operations come grouped by history in that order -- so a child's manifest and chain are in place before its parent's
+   manifest is written.  The commit set (which histories write) for nested layouts and -sf is carried by the
+   lockstep correspondence. *)
+From MHL Require Import Model.Commands Proofs.BaseFacts Proofs.RouteFacts Proofs.CommitFacts Proofs.LoadFacts.
 
 Theorem C08_deepest_history : forall hs root_h p, good p root_h ->
   good p (route hs root_h p) /\ (route hs root_h p = root_h \/ In (route hs root_h p) hs) /\
@@ -40,6 +42,18 @@ Theorem C08_reference_goes_to_parent_only : forall l h h' x,
   refs_get (refs_add l h x) h = refs_get l h ++ [x] /\ (h <> h' -> refs_get (refs_add l h x) h' = refs_get l h').
 Proof. intros. split; [apply refs_get_add_same|apply refs_get_add_other]. Qed.
 Print Assumptions C08_reference_goes_to_parent_only.
+
+(* children before parents: in the list `load` returns, the parent of every history comes later; the root is last *)
+Theorem C08_load_children_first : forall C cdig t hs, load C cdig t = inl hs ->
+  forall l1 h l2, hs = l1 ++ h :: l2 -> lh_parent h = None \/ exists h', In h' l2 /\ lh_parent h = Some (lh_root h').
+Proof. exact load_children_first. Qed.
+Print Assumptions C08_load_children_first.
+(* ... and commit performs its write operations grouped by history in exactly that order *)
+Theorem C08_writes_in_load_order : forall C cdig ser proc sess sp l cs0,
+  exists ws, cs_ops C (fold_left (commit_one C cdig ser proc sess sp) l cs0) = cs_ops C cs0 ++ concat ws /\
+             Forall2 (fun h w => forall op, In op w -> snd op = lh_root h) l ws.
+Proof. exact commit_ops_grouped. Qed.
+Print Assumptions C08_writes_in_load_order.
 
 (* non-vacuity: routing between "A" and "AB" *)
 Definition hA := mkLhist [[65%N]] (Some []) [] [] true.
